@@ -860,8 +860,14 @@ def run(prop, seed, budget, ctx):
         failures += af; distinct |= ad
         for k_, v_ in ah.items(): hist[k_] += v_
         for f in af: hist["P:" + f["why"][0].split(":")[0]] += 1
+        import generics
+        gf, gn, gd, gh = generics.run_part("C01", seed, budget)
+        failures += gf; distinct |= gd; an += gn
+        for k_, v_ in gh.items(): hist[k_] += v_
+        for f in gf: hist[("P:" + f["why"][0].split(":")[0]) if f["kind"] == "P" else "K"] += 1
         return {"evaluations": len(cases) + an, "distinct_nontrivial": len(distinct), "rule": RULES[prop] + "; plus classes with pattern / additional-properties / flattened fields "
-                "(overlapping patterns, declared fields matching a pattern, flattened keys matching a pattern) against a reference attribution of the keys", "samples": samples,
+                "(overlapping patterns, declared fields matching a pattern, flattened keys matching a pattern) against a reference attribution of the keys; specialised generic dataclasses "
+                "(hierarchies with reordered / repeated / wrapped parameters) against the model's substitution (K) and against plain twin classes (P)", "samples": samples,
                 "histograms": dict(hist), "in_scope": in_scope, "correspondence": {"compared_with_model": k_checked, "disagreements": k_bad}, "failures": failures}
     if prop == "C08":
         sf, sn, sd = ser_part(seed, budget)
@@ -952,6 +958,10 @@ def _crash(why, cls): return any(w == "crash:" + cls for w in why)
 
 
 KF = {
+    # `@discriminator` on a class with exactly one subclass: `Union[(A,)]` is `A`, the union - and with it the discriminator - disappears
+    "KF50": lambda c, why, im, k_ok: c.get("mode") == "inherited-single" and bool(why) and why[0] in (
+        "discriminator-dispatch-differs-from-the-alternative-alone", "missing-discriminator-not-rejected",
+        "serialized-union-value-is-not-the-alternative-plus-the-discriminator"),
     # ValidationError.errors sorts the children keys: a dict datum with keys of several classes cannot be sorted
     "KF07": lambda c, why, im, k_ok: any(w.startswith("errors-not-computable:TypeError") for w in why) and k_ok is not False
                                      and '"dn"' in json.dumps(c["d"]),
